@@ -339,7 +339,7 @@ namespace AIToolbox::POMDP {
 
         // Cache immediate rewards if we can't read the reward function directly.
         if constexpr (!MDP::IsModelEigen<M>)
-            immediateRewards_ = computeImmediateRewards(pomdp);
+            immediateRewards_ = MDP::computeImmediateRewards(pomdp);
 
         // First allocation for root node & children
         treeStorage_.clear();
